@@ -21,7 +21,7 @@ Standard library only.
 """
 import argparse, os, re, sys, time
 sys.path.insert(0, os.path.dirname(os.path.abspath(__file__)))
-from translate import compact, block_after, statements, split_top, num, Refuse, refuse
+from translate import compact, block_after, block_end, statements, split_top, num, struct_fields, Refuse, refuse
 
 UNTIED, TIED = [], []
 
@@ -343,6 +343,42 @@ def responder_send(text, where, aw):
     if re.search(r'if let Err\((\w+)\)=' + call + r'\{log::(error|warn)!\([^;{}]*\);\}', body): return 'log'
     refuse(W, "treatment of the result of send_to not recognised")
 
+# ------------------------------------------------------------------ into_owned bodies: which field each field is copied from
+def into_owned_types(text):
+    """[(type name, start of the body)] for every `pub fn into_owned` of a struct in this file"""
+    out = []
+    for m in re.finditer(r"pub fn into_owned(?:<'\w+>)?\(self\)->(\w+)(?:<'\w+>)?\{", text):
+        ty = m.group(1)
+        if ty == 'Self':
+            impls = list(re.finditer(r"impl(?:<[^>]*>)? ?(\w+)(?:<[^>]*>)?\{", text[:m.start()]))
+            if not impls: continue
+            ty = impls[-1].group(1)
+        out.append((ty, m.end() - 1))
+    return out
+
+def into_owned_fields(text, ty, at, where):
+    """[(field, field it is copied from)] of one `into_owned` body; a field that is not a copy of exactly one
+    field of `self` has the source "?" (a constant, a default, a computation over several fields)"""
+    W = f'{where}: {ty}::into_owned'
+    fields = list(struct_fields(text, ty, W))
+    body = text[at + 1:block_end(text, at) - 1]
+    if body == 'self': return [(f, f) for f in fields]
+    sts = statements(body)
+    lets = {}
+    for st in sts[:-1]:
+        m = re.match(r'let (\w+)=(.*);$', st)
+        if not m: refuse(W, f"unrecognised statement: {st[:120]}")
+        lets[m.group(1)] = m.group(2)
+    m = re.match(rf'(?:{ty}|Self)\{{(.*)\}}$', sts[-1]) if sts else None
+    if not m: refuse(W, f"the body does not end in a `{ty} {{ .. }}` literal")
+    out = []
+    for init in split_top(m.group(1), angle=False):
+        f, e = init.split(':', 1) if ':' in init else (init, lets.get(init, init))
+        srcs = sorted(set(re.findall(r'\bself\.(\w+)', e)))
+        out.append((f, srcs[0] if len(srcs) == 1 else '?'))
+    if sorted(f for f, _ in out) != sorted(fields): refuse(W, f"the literal initialises {sorted(f for f, _ in out)}, the struct declares {sorted(fields)}")
+    return sorted(out)
+
 # ------------------------------------------------------------------ output
 def generate(repo):
     del UNTIED[:], TIED[:]
@@ -376,6 +412,20 @@ def generate(repo):
     pp = attempt('packet.parse', need('p', packet_parse))
     pw = attempt('packet.write', need('p', packet_write))
     ex = attempt('mdns.expiration', need('mdns', expiration))
+    owned = []
+    dns = os.path.join(repo, 'simple-dns/src/dns')
+    own_files = [('simple-dns/src/dns/resource_record.rs', 'resource_record.rs'), ('simple-dns/src/dns/question.rs', 'question.rs')]
+    if os.path.isdir(os.path.join(dns, 'rdata')):
+        own_files += [(f'simple-dns/src/dns/rdata/{fn}', f'rdata/{fn}') for fn in sorted(os.listdir(os.path.join(dns, 'rdata'))) if fn.endswith('.rs') and fn not in ('mod.rs', 'macros.rs')]
+    for path, label in own_files:
+        text = read(path)
+        if text is None: continue
+        try: types = into_owned_types(text)
+        except Exception: types = []
+        for ty, at in types:
+            if not re.search(rf'\bstruct {ty}\b(?:<[^>]*>)?\{{', text): continue       # enums and tuple structs: not field-wise
+            v = attempt(f'own:{ty}', lambda: into_owned_fields(text, ty, at, label))
+            if v is not None: owned.append((ty, v))
     sp = [attempt('mdns.responder_send:sync', need('rs', lambda t: responder_send(t, 'sync_discovery/simple_responder.rs', False))),
           attempt('mdns.responder_send:tokio', need('ra', lambda t: responder_send(t, 'async_discovery/simple_responder.rs', True)))]
 
@@ -451,6 +501,8 @@ def generate(repo):
           f"def expShortDiv : Option Nat := {optn(g(ex, 'shortDiv'))}",
           f"def expLongDiv : Option Nat := {optn(g(ex, 'longDiv'))}",
           f"def expLongMul : Option Nat := {optn(g(ex, 'longMul'))}",
+          "", "/-- `into_owned` of every struct: (field, the field of `self` it is copied from; \"?\" when it is not a copy of exactly one field) -/",
+          "def intoOwned : List (String × List (String × String)) := [" + ',\n  '.join(f"({q(ty)}, [{', '.join(f'({q(a)}, {q(b)})' for a, b in v)}])" for ty, v in owned) + "]",
           "", "/-- simple-mdns `responder_loop` (sync, tokio): a failed `send_to` is logged (\"log\") or returned with `?` (\"propagate\") -/",
           f"def responderSendSync : Option String := {'none' if sp[0] is None else 'some ' + q(sp[0])}",
           f"def responderSendTokio : Option String := {'none' if sp[1] is None else 'some ' + q(sp[1])}",
